@@ -441,6 +441,15 @@ fn gen_c16_sequences(ctx: &mut Ctx, rng: &mut Rng) {
             ctx.monitor(res == wanted, "C16-serial-exchange", &line, &format!("wanted [{}] got [{}]", &wanted[..wanted.len().min(300)], &res[..res.len().min(300)]));
         }
     }
+    // a reply that trickles in: every byte arrives well inside the port's read timeout, the whole line takes more than the
+    // 5 s the port was given (15 bytes at 400 ms); it is still the reply.  (6 s of real time: left out where FDX_SKIP_SLOW.)
+    if std::env::var("FDX_SKIP_SLOW").is_err() {
+        let tape = enc_msg(&format!("RS.{}.PLD", a));
+        let line = format!("SBD HE.{} {} 400", a, hex_of_bytes(&tape));
+        let res = ctx.case(line.clone(), true, "reply-trickles-in");
+        let want = format!("OK RS.{}.PLD | {} | -", a, hex_of_bytes(&enc_msg(&format!("HE.{}", a))));
+        ctx.monitor(res == want, "C16-serial-exchange", &line, &format!("wanted [{}] got [{}]", want, res));
+    }
     // a long-lived bus: more than 65 536 exchanges (unanswered, unpaced messages), then ordinary ones with replies
     {
         let n = 65_540usize;
